@@ -140,6 +140,7 @@ impl<'xml> Deserializer<'xml> {
                 Event::Comment(_) | Event::Decl(_) | Event::PI(_) | Event::DocType(_) => continue,
 
                 Event::Start(x) => {
+                    check_attributes(&x)?;
                     self.depth = self.depth.saturating_add(1);
                     DeEvent::Start(x)
                 }
@@ -150,6 +151,7 @@ impl<'xml> Deserializer<'xml> {
                 Event::Eof => DeEvent::Eof,
 
                 Event::Empty(x) => {
+                    check_attributes(&x)?;
                     // translate `<CSV/>` to `<CSV></CSV>`
                     self.next_slot.push_back(DeEvent::End(x.to_end().into_owned()));
                     DeEvent::Start(x)
@@ -370,6 +372,14 @@ impl fmt::Debug for Deserializer<'_> {
     fn fmt(&self, f: &mut fmt::Formatter<'_>) -> fmt::Result {
         f.debug_struct("Deserializer").finish_non_exhaustive()
     }
+}
+
+/// A start tag is well-formed only if its attributes are: `name="value"` pairs with unique names
+fn check_attributes(start: &BytesStart<'_>) -> DeResult {
+    for attr in start.attributes() {
+        attr.map_err(|e| invalid_xml(e.into()))?;
+    }
+    Ok(())
 }
 
 /// Appends a text fragment (escaped form) to the text read so far
